@@ -150,7 +150,7 @@ def check_property(prop, tier, seed, replay=None):
     # thorough tier: independent re-check of the compiled property file and everything it depends on
     if tier == "thorough" and prop.property_file and not broken:
         mod = "Dnp3V." + prop.property_file[:-2].replace("/", ".")
-        p = sh(["timeout", "1500", "coqchk", "-o", "-silent", "-Q", ".", "Dnp3V", mod], cwd=COQ, check=False, timeout=1600)
+        p = sh(["timeout", "3000", "coqchk", "-o", "-silent", "-Q", ".", "Dnp3V", mod], cwd=COQ, check=False, timeout=3100)
         tail = [l for l in p.stdout.splitlines() if l.strip()][-12:]
         coverage["coqchk"] = {"exit": p.returncode, "tail": tail}
         if p.returncode != 0:
